@@ -1,7 +1,312 @@
-"""Byte-level file / struct model for the UKV store (filled in by the C02-C04 slice)."""
+"""Byte-store model: python bytes values and binary file streams as abstract sorts with
+memory-model axioms (read-over-write), plus the two `struct` formats of molli/storage/ukvfile.py.
+
+Trusted base (DESIGN 2.4): a file is a byte array + stream position; a short read happens only
+at EOF; seek past EOF followed by write zero-fills; struct pack/unpack are mutually inverse on
+their ranges and raise struct.error outside them.
+"""
 from __future__ import annotations
+import z3, struct as _pystruct
 from .values import *
+from .ops import to_z3, pyclass_kind, blen, bcat, b_empty, bytes_const
+
+Int = z3.IntSort()
+bslice = z3.Function("bslice", BytesS, Int, Int, BytesS)      # bslice(b, off, len)
+bwrite = z3.Function("bwrite", BytesS, Int, BytesS, BytesS)   # file content after writing d at p
+btrunc = z3.Function("btrunc", BytesS, Int, BytesS)           # first n bytes
+# >BI  block header
+pack_BI = z3.Function("pack_BI", Int, Int, BytesS)
+unp_B = z3.Function("unp_B", BytesS, Int)
+unp_I = z3.Function("unp_I", BytesS, Int)
+# >16sHI10x file header
+pack_FH = z3.Function("pack_FH", BytesS, Int, Int, BytesS)
+unp_FH_s = z3.Function("unp_FH_s", BytesS, BytesS)
+unp_FH_H = z3.Function("unp_FH_H", BytesS, Int)
+unp_FH_I = z3.Function("unp_FH_I", BytesS, Int)
+pad16 = z3.Function("pad16", BytesS, BytesS)
+s_encode = z3.Function("str_encode", z3.StringSort(), BytesS)
+b_decode = z3.Function("bytes_decode", BytesS, z3.StringSort())
+b_is_utf8 = z3.Function("bytes_is_utf8", BytesS, z3.BoolSort())
+
+FH_SIZE = 32
+BH_SIZE = 5
+
+
+def theory():
+    """Axioms of the byte store (quantified, with triggers)."""
+    b, d, F = z3.Consts("b d F", BytesS)
+    o, l, p, a, k, v, n = z3.Ints("o l p a k v n")
+    s = z3.Const("s", z3.StringSort())
+    ax = []
+    A = ax.append
+    A(z3.ForAll([b], blen(b) >= 0, patterns=[blen(b)]))
+    A(blen(b_empty) == 0)
+    A(z3.ForAll([b], z3.Implies(blen(b) == 0, b == b_empty), patterns=[blen(b)]))
+    A(z3.ForAll([b, o, l], z3.Implies(z3.And(o >= 0, l >= 0, o + l <= blen(b)), blen(bslice(b, o, l)) == l),
+                patterns=[bslice(b, o, l)]))
+    A(z3.ForAll([b], bslice(b, 0, blen(b)) == b, patterns=[bslice(b, 0, blen(b))]))
+    # write
+    A(z3.ForAll([F, p, d], blen(bwrite(F, p, d)) == z3.If(p + blen(d) > blen(F), p + blen(d), blen(F)),
+                patterns=[bwrite(F, p, d)]))
+    A(z3.ForAll([F, p, d, a, l],
+                z3.Implies(z3.And(a >= 0, l >= 0, a + l <= blen(d), p >= 0),
+                           bslice(bwrite(F, p, d), p + a, l) == bslice(d, a, l)),
+                patterns=[z3.MultiPattern(bslice(bwrite(F, p, d), p + a, l))]))
+    A(z3.ForAll([F, p, d], z3.Implies(p >= 0, bslice(bwrite(F, p, d), p, blen(d)) == d),
+                patterns=[bwrite(F, p, d)]))
+    A(z3.ForAll([F, p, d, o, l],
+                z3.Implies(z3.And(o >= 0, l >= 0, o + l <= blen(F), z3.Or(o + l <= p, o >= p + blen(d))),
+                           bslice(bwrite(F, p, d), o, l) == bslice(F, o, l)),
+                patterns=[bslice(bwrite(F, p, d), o, l)]))
+    # truncate
+    A(z3.ForAll([F, n], z3.Implies(z3.And(n >= 0, n <= blen(F)), blen(btrunc(F, n)) == n), patterns=[btrunc(F, n)]))
+    A(z3.ForAll([F, n, o, l], z3.Implies(z3.And(o >= 0, l >= 0, o + l <= n, n <= blen(F)),
+                                         bslice(btrunc(F, n), o, l) == bslice(F, o, l)),
+                patterns=[bslice(btrunc(F, n), o, l)]))
+    # >BI
+    rng = z3.And(k >= 0, k < 256, v >= 0, v < 2 ** 32)
+    A(z3.ForAll([k, v], z3.Implies(rng, z3.And(blen(pack_BI(k, v)) == BH_SIZE, unp_B(pack_BI(k, v)) == k, unp_I(pack_BI(k, v)) == v)),
+                patterns=[pack_BI(k, v)]))
+    A(z3.ForAll([b], z3.Implies(blen(b) == BH_SIZE, z3.And(unp_B(b) >= 0, unp_B(b) < 256, unp_I(b) >= 0, unp_I(b) < 2 ** 32,
+                                                           pack_BI(unp_B(b), unp_I(b)) == b)),
+                patterns=[unp_B(b)]))
+    # >16sHI10x
+    rngh = z3.And(k >= 0, k < 65536, v >= 0, v < 2 ** 32)
+    A(z3.ForAll([b, k, v], z3.Implies(rngh, z3.And(blen(pack_FH(b, k, v)) == FH_SIZE, unp_FH_s(pack_FH(b, k, v)) == pad16(b),
+                                                   unp_FH_H(pack_FH(b, k, v)) == k, unp_FH_I(pack_FH(b, k, v)) == v)),
+                patterns=[pack_FH(b, k, v)]))
+    A(z3.ForAll([b], z3.Implies(blen(b) == FH_SIZE, z3.And(unp_FH_H(b) >= 0, unp_FH_H(b) < 65536, unp_FH_I(b) >= 0, unp_FH_I(b) < 2 ** 32,
+                                                           blen(unp_FH_s(b)) == 16)),
+                patterns=[unp_FH_H(b)]))
+    A(z3.ForAll([b], z3.And(blen(pad16(b)) == 16, pad16(pad16(b)) == pad16(b)), patterns=[pad16(b)]))
+    # str <-> bytes (utf-8): encode is injective with decode as left inverse
+    A(z3.ForAll([s], z3.And(b_decode(s_encode(s)) == s, b_is_utf8(s_encode(s))), patterns=[s_encode(s)]))
+    A(z3.ForAll([b], z3.Implies(b_is_utf8(b), s_encode(b_decode(b)) == b), patterns=[b_decode(b)]))
+    return ax
+
+
+def use_theory(V_or_st):
+    st = getattr(V_or_st, "st", V_or_st)
+    if st.ghost.get("bytes_theory"):
+        return
+    st.ghost["bytes_theory"] = True
+    for a in theory():
+        st.pc.append(a)
+        if not z3.is_quantifier(a):
+            st.solver.add(a)
+
+
+def bz(v):
+    """z3 Bytes term of a python-level bytes value"""
+    if isinstance(v, SV) and v.ty == "bytes":
+        return v.z
+    if isinstance(v, bytes):
+        return bytes_const(v)
+    raise Unsupported(f"not bytes: {v!r}")
 
 
 def install(I, mkcls, meth):
-    pass
+    ns = I.builtins
+    E = I.ext_models
+    obj = ns["object"]
+
+    # ------------------------------------------------------------------ struct.Struct
+    Struct = mkcls("Struct")
+    E["struct.Struct"] = Struct
+
+    def struct_new(i, cls, a, k):
+        fmt = a[0]
+        if isinstance(fmt, str):
+            fmt = fmt.encode()
+        if not isinstance(fmt, bytes):
+            raise Unsupported("Struct with symbolic format")
+        return Obj(Struct, {"fmt": fmt, "size": _pystruct.calcsize(fmt)}, tag="struct")
+    Struct.ns["__pyvc_new__"] = struct_new
+    Struct.ns["size"] = PropertyV(Builtin("Struct.size", lambda i, a, k: a[0].fields["size"]))
+
+    @meth(Struct, "pack", "struct: pack/unpack inverse on their ranges, struct.error outside")
+    def _pack(i, a, k):
+        s, args = a[0], a[1:]
+        fmt = s.fields["fmt"]
+        if fmt == b">BI":
+            if len(args) != 2:
+                i.raise_py("struct.error", "pack expected 2 items for packing")
+            kz, vz = to_z3(args[0], "int"), to_z3(args[1], "int")
+            ok = z3.And(kz >= 0, kz < 256, vz >= 0, vz < 2 ** 32)
+            if not i.st.branch(ok, "pack>BI in range"):
+                i.raise_py("struct.error", "argument out of range")
+            return SV(pack_BI(kz, vz), "bytes")
+        if fmt == b">16sHI10x":
+            if len(args) != 3:
+                i.raise_py("struct.error", "pack expected 3 items for packing")
+            if pyclass_kind(args[0]) != "bytes":
+                i.raise_py("struct.error", "argument for 's' must be a bytes object")
+            kz, vz = to_z3(args[1], "int"), to_z3(args[2], "int")
+            ok = z3.And(kz >= 0, kz < 65536, vz >= 0, vz < 2 ** 32)
+            if not i.st.branch(ok, "pack FH in range"):
+                i.raise_py("struct.error", "argument out of range")
+            return SV(pack_FH(bz(args[0]), kz, vz), "bytes")
+        raise Unsupported(f"struct format {fmt!r}")
+
+    @meth(Struct, "unpack", "struct: pack/unpack inverse on their ranges, struct.error outside")
+    def _unpack(i, a, k):
+        s, b = a[0], a[1]
+        fmt = s.fields["fmt"]
+        if pyclass_kind(b) != "bytes":
+            i.raise_py("TypeError", "a bytes-like object is required")
+        z = bz(b)
+        if not i.st.branch(blen(z) == s.fields["size"], "unpack size ok"):
+            i.raise_py("struct.error", f"unpack requires a buffer of {s.fields['size']} bytes")
+        if fmt == b">BI":
+            return (SV(unp_B(z), "int"), SV(unp_I(z), "int"))
+        if fmt == b">16sHI10x":
+            return (SV(unp_FH_s(z), "bytes"), SV(unp_FH_H(z), "int"), SV(unp_FH_I(z), "int"))
+        raise Unsupported(f"struct format {fmt!r}")
+
+    # ------------------------------------------------------------------ binary stream on a ghost file
+    BS = mkcls("BufferedRandom")
+    E["io.BufferedRandom"] = BS
+    I.BinStreamCls = BS
+
+    def _chk_open(i, s):
+        if s.fields["closed"]:
+            i.raise_py("ValueError", "I/O operation on closed file.")
+
+    def _io_fault(i, s, what):
+        """optional fault injection: any I/O call may raise OSError (enabled per unit)"""
+        if i.st.ghost.get("io_faults"):
+            if i.st.branch(i.st.fresh(f"fault_{what}", z3.BoolSort()), f"io-fault:{what}"):
+                i.st.event("io-fault", what)
+                i.raise_py("OSError", f"injected fault in {what}")
+
+    @meth(BS, "seek", "io: file = byte array + position")
+    def _seek(i, a, k):
+        s = a[0]
+        _chk_open(i, s)
+        off = a[1]
+        wh = a[2] if len(a) > 2 else k.get("whence", 0)
+        f = s.fields["file"]
+        if wh == 0:
+            zo = to_z3(off, "int")
+            if not i.st.branch(zo >= 0, "seek>=0"):
+                i.raise_py("OSError", "Invalid argument")
+            s.fields["pos"] = SV(zo, "int")
+        elif wh == 1:
+            s.fields["pos"] = SV(to_z3(s.fields["pos"], "int") + to_z3(off, "int"), "int")
+        elif wh == 2:
+            s.fields["pos"] = SV(blen(bz(f.fields["content"])) + to_z3(off, "int"), "int")
+        else:
+            raise Unsupported("seek whence")
+        return s.fields["pos"]
+
+    @meth(BS, "tell")
+    def _tell(i, a, k):
+        _chk_open(i, a[0])
+        return a[0].fields["pos"]
+
+    @meth(BS, "read", "io: short read only at EOF")
+    def _read(i, a, k):
+        s = a[0]
+        _chk_open(i, s)
+        if not s.fields["r_ok"]:
+            i.raise_py("UnsupportedOperation", "not readable")
+        _io_fault(i, s, "read")
+        f = s.fields["file"]
+        F = bz(f.fields["content"])
+        pos = to_z3(s.fields["pos"], "int")
+        if len(a) < 2 or a[1] is None:
+            raise Unsupported("read() without size")
+        n = to_z3(a[1], "int")
+        avail = z3.If(blen(F) - pos > 0, blen(F) - pos, 0)
+        m = z3.If(z3.And(n >= 0, n < avail), n, avail)   # negative size = read to EOF
+        s.fields["pos"] = SV(pos + m, "int")
+        i.st.event("read", s, SV(pos, "int"), SV(m, "int"))
+        return SV(bslice(F, pos, m), "bytes")
+
+    @meth(BS, "write", "io: write at position, zero-fill beyond EOF")
+    def _write(i, a, k):
+        s = a[0]
+        _chk_open(i, s)
+        if not s.fields["w_ok"]:
+            i.raise_py("UnsupportedOperation", "not writable")
+        _io_fault(i, s, "write")
+        f = s.fields["file"]
+        d = bz(a[1])
+        pos = to_z3(s.fields["pos"], "int")
+        F = bz(f.fields["content"])
+        f.fields["content"] = SV(bwrite(F, pos, d), "bytes")
+        s.fields["pos"] = SV(pos + blen(d), "int")
+        i.st.event("write", s, SV(pos, "int"), a[1])
+        return SV(blen(d), "int")
+
+    @meth(BS, "truncate")
+    def _truncate(i, a, k):
+        s = a[0]
+        _chk_open(i, s)
+        if not s.fields["w_ok"]:
+            i.raise_py("UnsupportedOperation", "File not open for writing")
+        f = s.fields["file"]
+        n = to_z3(a[1], "int") if len(a) > 1 and a[1] is not None else to_z3(s.fields["pos"], "int")
+        F = bz(f.fields["content"])
+        if not i.st.branch(z3.And(n >= 0, n <= blen(F)), "truncate shrinks"):
+            raise Unsupported("truncate beyond EOF")
+        f.fields["content"] = SV(btrunc(F, n), "bytes")
+        i.st.event("truncate", s, SV(n, "int"))
+        return SV(n, "int")
+
+    @meth(BS, "close")
+    def _close(i, a, k):
+        s = a[0]
+        if not s.fields["closed"]:
+            s.fields["closed"] = True
+            i.st.event("close", s)
+
+    @meth(BS, "writable")
+    def _writable(i, a, k):
+        _chk_open(i, a[0])
+        return a[0].fields["w_ok"]
+
+    @meth(BS, "flush")
+    def _flush(i, a, k):
+        _chk_open(i, a[0])
+
+    BS.ns["closed"] = PropertyV(Builtin("BufferedRandom.closed", lambda i, a, k: a[0].fields["closed"]))
+    meth(BS, "__enter__")(lambda i, a, k: a[0])
+
+    @meth(BS, "__exit__")
+    def _exit(i, a, k):
+        _close(i, a[:1], {})
+        return False
+
+    def open_binary(i, cell, mode):
+        """cell: Obj(tag='file') with fields exists (bool|z3 Bool), content (SV bytes)"""
+        st = i.st
+        ex = cell.fields["exists"]
+        if mode in ("rb", "r+b", "rb+"):
+            if not st.branch(ex, "file exists"):
+                i.raise_py("FileNotFoundError", "No such file")
+        elif mode in ("x+b", "xb"):
+            if st.branch(ex, "file exists"):
+                i.raise_py("FileExistsError", "File exists")
+            cell.fields["exists"] = True
+            cell.fields["content"] = b""
+        elif mode in ("w+b", "wb"):
+            cell.fields["exists"] = True
+            cell.fields["content"] = b""
+        else:
+            raise Unsupported(f"open mode {mode!r}")
+        if st.ghost.get("io_faults"):
+            if st.branch(st.fresh("fault_open", z3.BoolSort()), "io-fault:open"):
+                i.raise_py("OSError", "injected fault in open")
+        s = Obj(BS, {"file": cell, "pos": 0, "closed": False, "r_ok": True,
+                     "w_ok": mode != "rb", "mode": mode}, tag="binstream")
+        st.event("open", s, cell, mode)
+        return s
+    I.open_binary = open_binary
+
+
+def new_file_cell(I, name="F", exists=True, content=None):
+    st = I.st
+    c = Obj(I.builtins["object"], {"exists": exists,
+                                   "content": content if content is not None else st.fresh_sv(name, "bytes")}, tag="file")
+    return c
